@@ -17,7 +17,9 @@ RULE = ("reply: 1-3 sequential exchanges on one real radiusConn over loopback UD
         "exchange, mostly on the same identifier); per round 1-5 datagrams from the classes genuine / genuine+MA / "
         "RA-ok-MA-bad / RA-bad-MA-ok / forged / wrong-secret / bit-flipped attribute, authenticator or code / other "
         "identifier / stale (genuine for the previous request) / replayed / short / bad length / trailing padding / "
-        "shorter declared length / malformed attribute / MA of wrong length / reflected request, in random order. "
+        "shorter declared length / malformed attribute / MA of wrong length / REPEATED Message-Authenticator (2-3 copies: valid, garbage, "
+        "wrong length in every order; plus a deterministic block of 48 such exchanges over Access-Accept/Reject/Challenge and "
+        "Accounting-Response, 24 Authenticate and 8 fail-over cases) / reflected request, in random order. "
         "coa: one real CoA listener per case (1-3 client nets incl. overlapping ones, replay window 300/10/0, optional "
         "NAS-Identifier and custom VSA mappings) receiving 1-4 CoA/Disconnect/other packets from configured and "
         "unconfigured loopback sources; request authenticator right / wrong key / zero / random, Message-Authenticator "
@@ -103,9 +105,58 @@ def mk_reply(code, ident, reqauth, attrs, key, ma=None, ma_key=None):
     return hdr + md5(hdr + reqauth + body + key) + body
 
 
+MA_COMBOS = ["VV", "VG", "GV", "GG", "WV", "VW", "WG", "GW", "VGV", "GVV", "VVG", "GGG"]
+
+
+def mk_reply_multi(code, ident, reqauth, attrs, key, combo, salt=0):
+    """Reply with SEVERAL attributes 80 (irregular: RFC 3579 allows one).  V = an 18-octet attribute whose value is the HMAC a
+    verifier that checks THIS copy would expect (computed over the final packet with the request authenticator in place and only
+    this copy zeroed; copies are filled in from the last to the first), G = 18 octets of garbage, W = attribute 80 of length 7.
+    The Response Authenticator is genuine for the final bytes."""
+    body = bytearray(attrs)
+    offs = []
+    for i, c in enumerate(combo):
+        if c == "W":
+            body += attr(80, bytes([0x11 + i + salt] * 5))
+            offs.append(None)
+        else:
+            offs.append(20 + len(body) + 2)
+            body += attr(80, bytes([(0xa0 + 7 * i + salt) & 0xff] * 16))
+    hdr = bytes([code, ident]) + struct.pack(">H", 20 + len(body))
+    pkt = bytearray(hdr + reqauth + bytes(body))
+    for i in reversed(range(len(combo))):
+        if combo[i] == "V":
+            o = offs[i]
+            tmp = bytearray(pkt)
+            tmp[o:o + 16] = Z16
+            pkt[o:o + 16] = hm(key, bytes(tmp))
+    final_body = bytes(pkt[20:])
+    return hdr + md5(hdr + reqauth + final_body + key) + final_body
+
+
+def gen_reply_multi_ma():
+    """Deterministic block: for every reply code and every combination of repeated Message-Authenticator attributes, one
+    exchange receiving the irregular datagram first and a plain genuine reply second."""
+    out = []
+    secret = b"s3cret"
+    k = 0
+    for reqcode, code in ((1, 2), (1, 3), (1, 11), (4, 5)):
+        for combo in MA_COMBOS:
+            k += 1
+            ident = (17 * k) % 250
+            auth = bytes((k * 13 + j) & 0xff for j in range(16))
+            attrs = attr(1, b"alice") + (attr(80, Z16) if reqcode == 1 else b"")
+            req = build_request(secret, reqcode, ident, auth, attrs)
+            reqauth = req[4:20]
+            irr = mk_reply_multi(code, ident, reqauth, attr(18, b"irr-" + combo.encode()), secret, combo, salt=k)
+            gen = mk_reply(code, ident, reqauth, attr(18, b"plain"), secret)
+            out.append("reply secret=%s 1 %d %d %s %s 2 %s %s" % (hx(secret), ident, reqcode, hx(auth), hx(attrs), hx(irr), hx(gen)))
+    return out
+
+
 REPLY_CLASSES = ["genuine", "genuine", "genuine_ma", "ra_ok_ma_bad", "ra_bad_ma_ok", "forged_zero", "forged_rand",
                  "wrong_secret", "flip_attr", "flip_auth", "flip_code", "other_id", "stale", "replay", "short", "badlen",
-                 "len_lt20", "trailing", "trunc_decl", "malformed_attr", "ma_wrong_len", "reflect", "wrong_secret_ma"]
+                 "len_lt20", "trailing", "trunc_decl", "malformed_attr", "ma_wrong_len", "reflect", "wrong_secret_ma", "multi_ma", "multi_ma"]
 
 
 def gen_reply(rng):
@@ -188,6 +239,8 @@ def gen_reply(rng):
             elif cls == "malformed_attr":
                 bad = a + rng.choice([b"\x12\x01", b"\x12\x09ab", b"\x12"])
                 d = mk_reply(okcode, ident, reqauth, bad, secret)
+            elif cls == "multi_ma":
+                d = mk_reply_multi(okcode, ident, reqauth, a, secret, rng.choice(MA_COMBOS), salt=rng.randrange(50))
             elif cls == "ma_wrong_len":
                 d = mk_reply(okcode, ident, reqauth, a + attr(80, bytes(rng.choice([0, 15, 17]))), secret)
             else:  # reflect
@@ -347,7 +400,7 @@ def gen_auth(rng):
     n = rng.choice([1, 2, 2, 3])
     rec = []
     for k in range(n):
-        kind = rng.choice(["ok", "ok", "okma", "badma", "forge", "wrong", "flip", "otherid"])
+        kind = rng.choice(["ok", "ok", "okma", "badma", "forge", "wrong", "flip", "otherid", "mm" + rng.choice(MA_COMBOS)])
         code = rng.choice([2, 2, 3, 11, 5])
         a = rng.choice([b"", attr(27, struct.pack(">I", 100 + k)), attr(8, bytes([10, 9, 8, k + 1])) + attr(28, struct.pack(">I", 60 + k)),
                         attr(88, b"pool%d" % k)])
@@ -398,6 +451,13 @@ def gen_cases(rng, tier, budget):
     if budget:
         nr, nc, na, nf = budget, budget, max(10, budget // 5), max(10, budget // 5)
     cases = [gen_coa_ttl(rng) for _ in range(5 if q else 40)]
+    cases += gen_reply_multi_ma()
+    for combo in MA_COMBOS:          # Authenticate: irregular Access-Accept first, genuine Access-Reject second (and the reverse codes)
+        cases.append("auth secret=%s pw=- 2 mm%s:2:%s ok:3:-" % (hx(b"s3cret"), combo, hx(attr(27, struct.pack(">I", 77)))))
+        cases.append("auth secret=%s pw=- 2 mm%s:3:- ok:2:%s" % (hx(b"s3cret"), combo, hx(attr(28, struct.pack(">I", 88)))))
+    for combo in ("GG", "GV", "VG", "WG"):   # fail-over: server A answers only with the irregular reply, B genuinely
+        cases.append("fail kind=auth pw=- 2 secret=%s 1 mm%s:2:- secret=%s 1 ok:3:-" % (hx(b"secret-A"), combo, hx(b"secret-B")))
+        cases.append("fail kind=acct pw=- 2 secret=%s 1 mm%s:5:- secret=%s 1 ok:5:-" % (hx(b"secret-A"), combo, hx(b"secret-B")))
     for i in range(max(nr, nc, na, nf)):
         if i < nf:
             cases.append(gen_fail(rng))
@@ -543,6 +603,8 @@ def distribution(cases, impl):
                     codes[r[:2]] = codes.get(r[:2], 0) + 1
             d["coa_duplicate_packets"] = d.get("coa_duplicate_packets", 0) + c.count(" dup=")
             d["coa_timed_replays"] = d.get("coa_timed_replays", 0) + c.count(" after=")
+        if k in ("auth", "fail"):
+            d["repeated_ma_recipes"] = d.get("repeated_ma_recipes", 0) + len(re.findall(r" mm[VGW]+:", c))
         elif k == "fail":
             d["failover_cases"] = d.get("failover_cases", 0) + 1
             d["failover_second_server_tried"] = d.get("failover_second_server_tried", 0) + ("s1:req=-" not in o)
